@@ -11,9 +11,33 @@ use std::sync::{Arc, Mutex};
 use std::time::{Duration, Instant};
 
 pub const DEFAULT_SEED: u64 = 20260927;
-/// Cap on the exact distinct-order-type set (per process); beyond it the count
-/// is a lower bound and the evidence says so.
-pub const DISTINCT_CAP: usize = 1 << 23;
+/// Distinct cases are counted in a bitmap shared by all workers and indexed by the low bits of the
+/// case hash: 2^28 bits (32 MB) in the quick tier, 2^32 bits (512 MB) in the thorough tier. Two cases
+/// whose hashes collide in the index are counted once, so the figure is a conservative (lower) count.
+pub struct Bitmap {
+    bits: Vec<AtomicU64>,
+    mask: u64,
+}
+
+impl Bitmap {
+    pub fn new(log2_bits: u32) -> Bitmap {
+        let words = 1usize << (log2_bits - 6);
+        Bitmap { bits: (0..words).map(|_| AtomicU64::new(0)).collect(), mask: (1u64 << log2_bits) - 1 }
+    }
+    #[inline]
+    pub fn set(&self, h: u64) {
+        // mix so that the index does not depend on the structure of the FNV digest's low bits
+        let mut s = h;
+        let i = crate::rng::splitmix64(&mut s) & self.mask;
+        self.bits[(i >> 6) as usize].fetch_or(1 << (i & 63), Ordering::Relaxed);
+    }
+    pub fn count(&self) -> u64 {
+        self.bits.iter().map(|w| w.load(Ordering::Relaxed).count_ones() as u64).sum()
+    }
+    pub fn capacity(&self) -> u64 {
+        self.mask + 1
+    }
+}
 pub const HANG_SECS: u64 = 30;
 
 #[derive(Clone, Copy, Debug, PartialEq, Eq)]
@@ -45,8 +69,7 @@ pub struct Violation<S> {
 #[derive(Default)]
 pub struct Cov {
     pub counters: BTreeMap<&'static str, u64>,
-    pub distinct: HashSet<u64>,
-    pub distinct_overflow: bool,
+    pub distinct: Option<Arc<Bitmap>>,
     /// a second, small exact set for world-specific saturation measures (e.g. small-scope order types)
     pub aux: HashSet<u64>,
     pub events: u64,
@@ -79,24 +102,14 @@ impl Cov {
         if !self.enabled {
             return;
         }
-        if self.distinct.len() < DISTINCT_CAP {
-            self.distinct.insert(h);
-        } else if !self.distinct.contains(&h) {
-            self.distinct_overflow = true;
+        if let Some(b) = &self.distinct {
+            b.set(h);
         }
     }
     pub fn merge(&mut self, other: Cov) {
         for (k, v) in other.counters {
             *self.counters.entry(k).or_insert(0) += v;
         }
-        for h in other.distinct {
-            if self.distinct.len() < DISTINCT_CAP {
-                self.distinct.insert(h);
-            } else if !self.distinct.contains(&h) {
-                self.distinct_overflow = true;
-            }
-        }
-        self.distinct_overflow |= other.distinct_overflow;
         self.aux.extend(other.aux);
         self.events += other.events;
         self.executions += other.executions;
@@ -385,8 +398,10 @@ pub fn run_world<W: World>(world: Arc<W>, cfg: &RunConfig) -> RunReport {
         })
     };
 
+    let bitmap = Arc::new(Bitmap::new(if cfg.digest_only { 6 } else if cfg.tier == Tier::Thorough { 32 } else { 28 }));
     let mut handles = Vec::new();
     for w in 0..cfg.workers {
+        let bitmap = bitmap.clone();
         let world = world.clone();
         let next = next.clone();
         let stop_at = stop_at.clone();
@@ -406,6 +421,7 @@ pub fn run_world<W: World>(world: Arc<W>, cfg: &RunConfig) -> RunReport {
                 .stack_size(64 << 20)
                 .spawn(move || {
                     let mut cov = Cov::new(true);
+                    cov.distinct = Some(bitmap.clone());
                     let prog = &progress[w];
                     let mut local_digests: Vec<(u64, u64)> = Vec::new();
                     loop {
@@ -534,13 +550,17 @@ pub fn run_world<W: World>(world: Arc<W>, cfg: &RunConfig) -> RunReport {
     }
 
     let wall = t0.elapsed().as_secs_f64();
+    let distinct_count = bitmap.count();
     if let Some(path) = &cfg.evidence_path {
         let mut samples = std::mem::take(&mut *samples.lock().unwrap());
         samples.sort_by_key(|(i, _)| *i);
         let mut coverage = Map::new();
         coverage.insert("evaluations".into(), json!(cov.executions));
-        coverage.insert("distinct_nontrivial".into(), json!(cov.distinct.len()));
-        coverage.insert("distinct_is_lower_bound".into(), json!(cov.distinct_overflow));
+        coverage.insert("distinct_nontrivial".into(), json!(distinct_count));
+        coverage.insert(
+            "distinct_counting".into(),
+            json!(format!("bitmap of {} bits indexed by a mix of the case hash: colliding cases count once, so the figure is a lower bound (expected undercount about {:.2}%)", bitmap.capacity(), 50.0 * distinct_count as f64 / bitmap.capacity() as f64)),
+        );
         coverage.insert("rule".into(), json!(world.rule()));
         coverage.insert(
             "samples".into(),
@@ -612,7 +632,7 @@ pub fn run_world<W: World>(world: Arc<W>, cfg: &RunConfig) -> RunReport {
         cfg.seed,
         cov.executions,
         cov.events,
-        cov.distinct.len(),
+        distinct_count,
         wall,
         exit_code
     );
@@ -620,6 +640,33 @@ pub fn run_world<W: World>(world: Arc<W>, cfg: &RunConfig) -> RunReport {
         exit_code,
         combined_digest,
     }
+}
+
+/// Index ranges to try deleting from a list of `len` elements when minimising: halves, quarters, ...,
+/// single elements, but never more than a bounded number of ranges per level for long lists (every
+/// candidate is a full clone of the scenario; a 65 537-segment function must not yield 65 537 clones).
+pub fn removal_ranges(len: usize) -> Vec<(usize, usize)> {
+    let mut out = Vec::new();
+    if len == 0 {
+        return out;
+    }
+    let per_level = if len > 4096 { 8 } else if len > 256 { 32 } else { usize::MAX };
+    let mut chunk = (len / 2).max(1);
+    loop {
+        let pieces = len.div_ceil(chunk);
+        for p in 0..pieces {
+            // for long lists only the first and last ranges of a level
+            if pieces > per_level && p >= per_level / 2 && p < pieces - per_level / 2 {
+                continue;
+            }
+            out.push((p * chunk, ((p + 1) * chunk).min(len)));
+        }
+        if chunk == 1 {
+            break;
+        }
+        chunk /= 2;
+    }
+    out
 }
 
 /// Greedy delta-debugging driven by the world's candidate generator.
